@@ -59,6 +59,14 @@ CHECKS = {
              "checks": ["c15-backoff", "c15-reconnect"]},
         ],
     },
+    "C16": {
+        "level": "exploration",
+        "groups": [
+            {"name": "c16", "run": "^TestC16_", "variant": "race", "shards": {"quick": 12, "thorough": 24},
+             "timeout": {"quick": 900, "thorough": 5400},
+             "checks": ["c16-programs"]},
+        ],
+    },
     "C17": {
         "level": "exploration",
         "groups": [
